@@ -57,7 +57,8 @@ def deg_of_posterior(env, sf):
 
 
 def _run_own(chk, S: Session):
-    chk.assume("damp = 0 for the equivariance clause", "initial covariance zero or scaled with the base scale (base case of the inductive typing)")
+    chk.assume("damp = 0 for the equivariance clause")
+    chk.assume("initial covariance zero or scaled with the base scale (base case of the inductive typing)")
     chk.trust("interface signatures of sdomain.py (derived per factorisation in C08 / C09)")
     r1 = chk.rule("R-C04-1", "scale-degree typing: means 0, uncalibrated covariances 1, estimated scales -1, calibrated covariances 0, acceptance quantity 0", floor=40)
     r2 = chk.rule("R-C04-2", "MLE running RMS: c_new^2 = n/(n+1) c^2 + b^2/(n+1); counter; first term", floor=6)
